@@ -19,8 +19,8 @@ from . import ctx
 from . import seams
 
 ROOT = os.path.dirname(os.path.dirname(os.path.abspath(__file__)))
-OUT = os.path.join(ROOT, 'out')
-EVIDENCE = os.path.join(ROOT, 'evidence')
+OUT = os.environ.get('ZSIM_OUT_DIR') or os.path.join(ROOT, 'out')
+EVIDENCE = os.environ.get('ZSIM_EVIDENCE_DIR') or os.path.join(ROOT, 'evidence')
 KNOWN = os.path.join(ROOT, 'known_findings.json')
 
 CHECKS = ['C01', 'C02', 'C03', 'C04', 'C05', 'C06', 'C07', 'C08', 'C09',
